@@ -276,7 +276,7 @@ def check_C14(tier, seed):
 def check_C11(tier, seed):
     return run_ref_property("C11", tier, seed, cores.fault_catalogue(), ["C11"], 3, 4, file_name="f.txt", flagsets_q=("std",), tq=120, tt=1800,
                             bounds_extra={"fault_plan": "symbolic: per block slot, first two invocations in {none, errA, errB, panic}", "Recover": "symbolic"},
-                            rnd=(8, 80, ("fault",)))
+                            rnd=(8, 80, ("fault",)), lemmas=["AddErr"], lemma_n=(2, 3))
 
 
 def check_C10(tier, seed):
